@@ -37,6 +37,51 @@ Fixpoint P_trace (s : state) (tr : list (op * out)) : Prop :=
   | (Add _ _ _, o) :: r => P_trace (o_infos o) r
   end.
 
+(* ---------------------------------------------------------------- histories the property is claimed for *)
+
+(** a well-formed epoch info at time [now]: counting not started => epoch number 0;
+    counting started => StartTime <= CurrentEpochStartTime <= now.  Every info produced by
+    BeginBlocker from a fresh definition is of this shape (Proofs: [wf_step]). *)
+Definition wf_info (now : Z) (e : einfo) : Prop :=
+  (e_started e = false -> e_cur e = 0) /\
+  (e_started e = true -> e_start e <= e_cur_start e /\ e_cur_start e <= now).
+
+Definition ids (s : state) : list nat := map e_id s.
+
+Definition Inv (now : Z) (s : state) : Prop := Forall (wf_info now) s /\ NoDup (ids s).
+
+Definition op_time (o : op) : Z := match o with Block t _ => t | Add ct _ _ => ct end.
+
+(** the info AddEpochInfo stores *)
+Definition added (ct ch : Z) (a : add_args) : einfo :=
+  {| e_id := a_id a; e_start := match a_start a with Some x => x | None => ct end; e_dur := a_dur a;
+     e_cur := a_cur a; e_cur_start := a_cur_start a; e_height := ch; e_started := a_started a |}.
+
+Definition add_wf (o : op) : Prop :=
+  match o with Block _ _ => True | Add ct ch a => wf_info ct (added ct ch a) end.
+
+(** non-decreasing context times, well-formed definitions *)
+Fixpoint ops_ok (now : Z) (ops : list op) : Prop :=
+  match ops with
+  | [] => True
+  | o :: r => now <= op_time o /\ add_wf o /\ ops_ok (op_time o) r
+  end.
+
+Fixpoint lookup (i : nat) (s : state) : option einfo :=
+  match s with [] => None | e :: r => if Nat.eqb (e_id e) i then Some e else lookup i r end.
+
+(** the hook calls for identifier [i] that take its epoch number from [a] to [b] *)
+Definition span_n (i : nat) (a : Z) (k : nat) : list hook :=
+  flat_map (fun n => [AfterEnd i n; BeforeStart i (n + 1)]) (map (fun j => a + Z.of_nat j) (seq 0 k)).
+Definition span (i : nat) (a b : Z) : list hook := span_n i a (Z.to_nat (b - a)).
+
+(** … for an identifier whose info was [e] at the beginning and is [e'] at the end of a history *)
+Definition expected (e e' : einfo) : list hook :=
+  if e_started e then span (e_id e) (e_cur e) (e_cur e')
+  else if e_started e' then BeforeStart (e_id e) 1 :: span (e_id e) 1 (e_cur e') else [].
+
+Definition all_hooks (outs : list out) : list hook := concat (map o_hooks outs).
+
 (* ---------------------------------------------------------------- boolean versions *)
 
 Definition einfo_eqb (a b : einfo) : bool :=
